@@ -857,12 +857,48 @@ def check_compact_timeslot(repo: Repo, rep: Report):
     all_methods = {c: repo.class_methods(rel, c) for c, rel in CLASSES.items()}
     from .ordertype import Undetermined
     syms = ["x1", "x2", "x3"]
-    for R in (2, 3, 4, 5):
+    try:
+        for R in (2, 3, 4, 5):
+            try:
+                return _compact_at(repo, rep, fn, construct, all_methods, syms, R)
+            except Undetermined:
+                continue
+        raise AnalysisError("compact_timeslot: comparisons undetermined up to resolution 5")
+    except (Unsupported, AnalysisError) as ex:
+        # the symbolic run left the interpreted fragment (e.g. the timestamps are turned into text): a run on concrete integer
+        # sets can still establish a violation; if it finds none the general claim stays undecided
+        if _compact_concrete(rep, fn, construct, all_methods):
+            rep.ob("L.compact_timeslot", construct, "rank map (symbolic run abstained: %s)" % ex, ok=False)
+            return 1
+        raise
+
+
+COMPACT_SETS = [[3, 10, -5, -12], [0, 7, 100, 23], [-1, -10, -100], [9, 10, 11, 99, 100, 101], [5], []]
+
+
+def _compact_concrete(rep, fn, construct, all_methods):
+    """True iff a violation was found (and reported) on one of the concrete timestamp sets"""
+    ot = OrderType([["t"]], [], 2)
+    for stamps in COMPACT_SETS:
+        w = LineWorld(dict(cls="DynGraph", directed=False, removal=True, exists=False), ot, {}, all_methods["DynGraph"], all_methods)
+        ip = CtorInterp(w, ot, max_depth=4)
         try:
-            return _compact_at(repo, rep, fn, construct, all_methods, syms, R)
-        except Undetermined:
-            continue
-    raise AnalysisError("compact_timeslot: comparisons undetermined up to resolution 5")
+            val = ip.call_function(fn, {fn.args.args[0].arg: ListObj([Const(x) for x in stamps])})
+        except AbstractRaise as r:
+            rep.finding("L.compact_timeslot", construct, "raises:%s" % r.exc, "compact_timeslot raises %s (%s)" % (r.exc, r.detail),
+                        witness="timestamps %s" % stamps, line=fn.lineno)
+            return True
+        want = {x: i for i, x in enumerate(sorted(stamps))}
+        got = {k.v: v.v for k, v in val.entries.items() if isinstance(k, Const) and isinstance(v, Const)} if isinstance(val, DictObj) else None
+        if got is None or len(got) != len(val.entries):
+            raise Unsupported(fn, "compact_timeslot returns %r on concrete timestamps" % (val,))
+        if got != want:
+            neg = any(x < 0 for x in stamps)
+            rep.finding("L.compact_timeslot", construct, "not-rank-map" + (":negative-timestamps" if neg else ""),
+                        "compact_timeslot maps the timestamps to %s, their ranks are %s" % (got, want), witness="timestamps %s" % stamps,
+                        line=fn.lineno)
+            return True
+    return False
 
 
 def _compact_at(repo, rep, fn, construct, all_methods, syms, R):
@@ -1197,8 +1233,11 @@ def check_event_logs(cc, cls):
     for (label, directed_only, timelines) in LOG_GRAPHS:
         if directed_only and not directed:
             continue
-        for close_points in (False, True):
+        # an undirected log may name a pair in either orientation: the '-' rows are also given as 'v u - t'
+        for close_points, swap_minus in ((False, False), (True, False)) + (((False, True),) if not directed else ()):
             events = _log_events(timelines, close_points)
+            if swap_minus:
+                events = [(v, u, op, k) if op == "-" else (u, v, op, k) for (u, v, op, k) in events]
             lines = [LineV([Tok("n:" + u), Tok("n:" + v), Tok("op", op), Tok("t:%d" % k)], sep="ws") for (u, v, op, k) in events]
             n += 1
             cc.instances += 1
@@ -1217,7 +1256,7 @@ def check_event_logs(cc, cls):
                 cc.n_runs += 1
                 if any(v for k, v in ch.items() if isinstance(k, tuple) and k[0].startswith("conversion")):
                     continue
-                wit = "%s | log: %s" % (label, " / ".join("%s %s %s t%+d" % e for e in events))
+                wit = "%s%s | log: %s" % (label, ", '-' rows in the other orientation" if swap_minus else "", " / ".join("%s %s %s t%+d" % e for e in events))
                 if kind == "raise":
                     cc.add("C10.log", construct, "raises:%s" % val.exc, "replaying the log raises %s (%s)" % (val.exc, val.detail), wit,
                            getattr(val.node, "lineno", 0))
